@@ -767,6 +767,10 @@ func (runInfo *runInfoStruct) invokeMakeTypeExpr(expr *ast.MakeTypeExpr) {
 		return
 	}
 
+	if runInfo.rv.Kind() == reflect.Interface && !runInfo.rv.IsNil() {
+		runInfo.rv = runInfo.rv.Elem()
+	}
+
 	// if expr.Name has a dot in it, it should give a syntax error, so no needs to check err
 	runInfo.env.DefineReflectType(expr.Name, runInfo.rv.Type())
 
